@@ -1,7 +1,7 @@
 (* Props/C02.v — property C02: theorems only; each closed by [exact] of a lemma proved elsewhere, followed by
    Print Assumptions. The statements are about every trace admitted by the protocol model (Sim/Proto.v,
    rules with constants regenerated from /repo), at every position of the trace. *)
-From LE Require Import Base Ev World Mon Mon2 Proto Consts GenGuards Config ConfigSpec GenConfig SimBasics SimOwn SimCallbacks SimTheorems GuardFacts Timing Witness Env SimRefresh SimLease Witness2.
+From LE Require Import Base Ev World Mon Mon2 Proto Consts GenGuards Config ConfigSpec GenConfig SimBasics SimOwn SimCallbacks SimTheorems GuardFacts Timing Witness Env EnvT SimRefresh SimLease SimLeaseT Witness2.
 Open Scope Z_scope.
 
 Theorem C02_acquisition_only_when_vacant :
@@ -47,3 +47,22 @@ Theorem C02_partial_nonvacuous :
   List.length (filter (fun te => match snd te with EFlag _ 1 _ _ _ => true | _ => false end) lease_witness) = 2%nat.
 Proof. exact (conj lease_witness_admitted (conj lease_witness_env lease_witness_claims)). Qed.
 Print Assumptions C02_partial_nonvacuous.
+
+(* The same in the environment the property names (Sim/EnvT.v): every store call in flight is younger than H/2 and
+   returns without a transport fault, 0 < H and 3 H <= the bucket's maximum age, a message ages out only when that old,
+   nobody else writes, no health checker, no takeover. That the record does not expire under its holder is derived
+   here - from the urgency rules of the protocol model (refresh ticks on time 2070, a shutdown drops the claim at once
+   2072, the refresh loop is sequential 2073) - not assumed.
+   PARTIAL: two hypotheses remain inside [envT_admits] - "no Delete takes effect on a key under a holder" (the recorded
+   residual of D5) and "a refresh attempt of a claiming instance is answered with success" (true of the rules; its
+   derivation from them is the next step, see DESIGN.md). *)
+Theorem C02_partial_one_claimant_while_the_store_is_fast :
+  forall tr, admits base0 tr = true -> envT_admits base0 tr = true ->
+  forall pre te post, tr = pre ++ te :: post ->
+    ~ In 201 (mon_C02 (bapply (brun pre) te) te) /\ ~ In 202 (mon_C02 (bapply (brun pre) te) te).
+Proof. exact C02_mutual_exclusion_fast_store. Qed.
+Print Assumptions C02_partial_one_claimant_while_the_store_is_fast.
+
+Theorem C02_partial_fast_store_nonvacuous : admits base0 lease_witness = true /\ envT_admits base0 lease_witness = true.
+Proof. exact (conj lease_witness_admitted lease_witness_envT). Qed.
+Print Assumptions C02_partial_fast_store_nonvacuous.
